@@ -524,11 +524,9 @@ fn measure(img: &[u8]) -> Claim {
                     return Claim::In;
                 }
                 stack.push(Item::Exit(o, l));
-                let Some(end) = o.checked_add(l) else {
-                    continue;
-                };
-                // a section longer than the file: what is there is read up to EOF
-                let end = end.min(img.len() as u64);
+                // a section longer than the file (or with a length near 2^64): a reader bounded by
+                // take(length) simply reads what is there up to EOF
+                let end = o.saturating_add(l).min(img.len() as u64);
                 if o >= end {
                     continue;
                 }
